@@ -135,9 +135,9 @@ def configs(tier, seed):
                     types += [("rush_stopping", 0), ("rush_stopping", 2)]
                 for typ, k in types:
                     p1 = rotate(all_perms(T), seed * 7 + len(out))
-                    n1 = 3 if tier == "quick" else 8
+                    n1 = 3 if tier == "quick" else 5
                     if typ != "stopping" or brackets > 1:
-                        n1 = 2 if tier == "quick" else 4
+                        n1 = 2 if tier == "quick" else 3
                     for i, perm1 in enumerate(p1[:n1]):
                         perm2 = tuple(reversed(range(T))) if i % 2 else tuple(range(T))
                         perms = {str(levels[0]): perm1}
@@ -150,7 +150,7 @@ def configs(tier, seed):
                         if tier == "quick":
                             cfg["max_states"] = 4000
                         else:
-                            cfg["max_states"] = 60000
+                            cfg["max_states"] = 12000
                         out.append(cfg)
     return out
 
